@@ -82,7 +82,7 @@ pub fn g_ingress(rng: &mut Rng) -> IngressEnvelope {
     let bytes = match rng.below(5) {
         0 => Vec::new(),
         1 => rng.bytes(70_000),
-        _ => rng.bytes(rng.range_usize(1, 100)),
+        _ => { let n_ = rng.range_usize(1, 100); rng.bytes(n_) },
     };
     let mut parents = Vec::new();
     for _ in 0..*rng.pick(&[0usize, 0, 1, 2, 5]) {
@@ -129,16 +129,12 @@ fn dec_ingress(b: &[u8]) -> Dec {
     }
 }
 fn touch_ingress(b: &[u8]) -> Result<(), String> {
-    IngressEnvelope::from_retained_bytes(b).map(|v| drop(v)).map_err(|e| label(&e))
+    IngressEnvelope::from_retained_bytes(b).map(|_| ()).map_err(|e| label(&e))
 }
 
 // ---------------------------------------------------------------------------
 // provenance retention
 // ---------------------------------------------------------------------------
-
-fn digest(s: &str) -> Hash {
-    blake3::hash(s.as_bytes()).into()
-}
 
 pub fn g_entry(rng: &mut Rng) -> ProvenanceEntry {
     let tag = rng.next_u64();
@@ -198,33 +194,37 @@ pub fn g_entry(rng: &mut Rng) -> ProvenanceEntry {
     let n_entries = *rng.pick(&[0usize, 1, 2, 3, 6]);
     let mut entries = Vec::new();
     let mut blocked: Vec<Vec<u32>> = Vec::new();
+    let mut applied: Vec<u32> = Vec::new();
     for i in 0..n_entries {
-        let disp = if i == 0 {
-            *rng.pick(&[TickReceiptDisposition::Applied, TickReceiptDisposition::Rejected(TickReceiptRejection::ExecutableOperationObstruction)])
-        } else {
-            *rng.pick(&[
-                TickReceiptDisposition::Applied,
-                TickReceiptDisposition::Rejected(TickReceiptRejection::FootprintConflict),
-                TickReceiptDisposition::Rejected(TickReceiptRejection::ExecutableOperationObstruction),
-            ])
-        };
+        let mut disp = *rng.pick(&[
+            TickReceiptDisposition::Applied,
+            TickReceiptDisposition::Rejected(TickReceiptRejection::FootprintConflict),
+            TickReceiptDisposition::Rejected(TickReceiptRejection::ExecutableOperationObstruction),
+        ]);
+        if applied.is_empty() && matches!(disp, TickReceiptDisposition::Rejected(TickReceiptRejection::FootprintConflict)) {
+            disp = TickReceiptDisposition::Applied;
+        }
+        // blockers: a non-empty, strictly increasing subset of the earlier *applied* entries
         let bl: Vec<u32> = if matches!(disp, TickReceiptDisposition::Rejected(TickReceiptRejection::FootprintConflict)) {
-            let mut b: Vec<u32> = (0..i as u32).filter(|_| rng.chance(1, 2)).collect();
+            let mut b: Vec<u32> = applied.iter().copied().filter(|_| rng.chance(1, 2)).collect();
             if b.is_empty() {
-                b.push(rng.below(i as u64) as u32);
+                b.push(applied[rng.below_usize(applied.len())]);
             }
             b
         } else {
             Vec::new()
         };
+        if matches!(disp, TickReceiptDisposition::Applied) {
+            applied.push(i as u32);
+        }
         entries.push(TickReceiptEntry { rule_id: h(rng), scope_hash: h(rng), scope: if rng.chance(1, 2) { n1 } else { n2 }, disposition: disp });
         blocked.push(bl);
     }
     let receipt = TickReceipt::try_from_retained_parts(TxId::from_raw(tick.wrapping_add(1)), entries, blocked).expect("lawful receipt parts");
     let gt = GlobalTick::from_raw(u64b(rng));
-    let outputs: Vec<(warp_core::TypeId, Vec<u8>)> = (0..rng.below(3)).map(|i| (make_type_id(&format!("ch{i}-{tag}")), rng.bytes(*rng.pick(&[0usize, 5, 300])))).collect();
+    let outputs: Vec<(warp_core::TypeId, Vec<u8>)> = (0..rng.below(3)).map(|i| (make_type_id(&format!("ch{i}-{tag}")), { let n_ = *rng.pick(&[0usize, 5, 300]); rng.bytes(n_) })).collect();
     let writes: Vec<AtomWrite> = (0..rng.below(3))
-        .map(|_| AtomWrite::new(n1, h(rng), u64b(rng), if rng.chance(1, 2) { Some(rng.bytes(rng.below_usize(40))) } else { None }, rng.bytes(rng.below_usize(40))))
+        .map(|_| AtomWrite::new(n1, h(rng), u64b(rng), if rng.chance(1, 2) { Some({ let n_ = rng.below_usize(40); rng.bytes(n_) }) } else { None }, { let n_ = rng.below_usize(40); rng.bytes(n_) }))
         .collect();
     ProvenanceEntry::local_commit(
         worldline_id,
@@ -278,7 +278,7 @@ fn dec_prov(b: &[u8]) -> Dec {
     }
 }
 fn touch_prov(b: &[u8]) -> Result<(), String> {
-    pc::decode_local_commit_v1(b).map(|v| drop(v)).map_err(|e| label(&e))
+    pc::decode_local_commit_v1(b).map(|_| ()).map_err(|e| label(&e))
 }
 
 fn g_contract(rng: &mut Rng) -> Option<warp_core::InstalledInvocationEvidence> {
@@ -332,7 +332,7 @@ fn dec_state_delta(b: &[u8]) -> Dec {
     }
 }
 fn touch_state_delta(b: &[u8]) -> Result<(), String> {
-    w::WalRuntimeStateDeltaRecord::from_payload_bytes(b).map(|v| drop(v)).map_err(|e| label(&e))
+    w::WalRuntimeStateDeltaRecord::from_payload_bytes(b).map(|_| ()).map_err(|e| label(&e))
 }
 
 // ---------------------------------------------------------------------------
@@ -360,7 +360,7 @@ macro_rules! wal_record {
             }
         }
         fn touch(b: &[u8]) -> Result<(), String> {
-            <$ty>::from_payload_bytes(b).map(|v| drop(v)).map_err(|e| label(&e))
+            <$ty>::from_payload_bytes(b).map(|_| ()).map_err(|e| label(&e))
         }
         Codec {
             name: $name,
@@ -373,6 +373,7 @@ macro_rules! wal_record {
             chunks: $chunks,
             needs_kernel: false,
             in_c12: true,
+            in_c13: true,
         }
     }};
 }
@@ -419,7 +420,7 @@ pub fn wal_codecs() -> Vec<Codec> {
             canonical_envelope_digest: h(rng),
             submission_generation: u64b(rng),
             head_key: head_key(rng),
-            retained_envelope_bytes: if rng.chance(1, 2) { g_ingress(rng).to_retained_bytes_v2() } else { rng.bytes(*rng.pick(&[0usize, 1, 300])) },
+            retained_envelope_bytes: if rng.chance(1, 2) { g_ingress(rng).to_retained_bytes_v2() } else { { let n_ = *rng.pick(&[0usize, 1, 300]); rng.bytes(n_) } },
         }),
         wal_record!("wal.tick_receipt", w::TickReceiptRecord, &[32, 8], |rng: &mut Rng| w::TickReceiptRecord {
             receipt_ref: receipt_ref(rng),
@@ -541,7 +542,7 @@ pub fn wal_codecs() -> Vec<Codec> {
 
 fn g_frames(rng: &mut Rng) -> Vec<mat::MaterializationFrame> {
     (0..*rng.pick(&[0usize, 1, 2, 5, 40]))
-        .map(|_| mat::MaterializationFrame::new(warp_core::TypeId(h(rng)), rng.bytes(*rng.pick(&[0usize, 1, 31, 32, 33, 1000, 70_000]))))
+        .map(|_| mat::MaterializationFrame::new(warp_core::TypeId(h(rng)), { let n_ = *rng.pick(&[0usize, 1, 31, 32, 33, 1000, 70_000]); rng.bytes(n_) }))
         .collect()
 }
 fn rt_frames_v1(rng: &mut Rng) -> Rt {
@@ -562,13 +563,13 @@ fn dec_frames_v1(b: &[u8]) -> Dec {
     }
 }
 fn touch_frames_v1(b: &[u8]) -> Result<(), String> {
-    mat::decode_frames(b).map(|v| drop(v)).ok_or_else(|| "None".to_owned())
+    mat::decode_frames(b).map(|_| ()).ok_or_else(|| "None".to_owned())
 }
 fn g_packet(rng: &mut Rng) -> mat::V2Packet {
     let header = mat::V2PacketHeader { session_id: h(rng), cursor_id: h(rng), worldline_id: h(rng), warp_id: warp_core::WarpId(h(rng)), tick: u64b(rng), commit_hash: h(rng) };
     let entries = (0..*rng.pick(&[0usize, 1, 2, 7, 60]))
         .map(|_| {
-            let value = rng.bytes(*rng.pick(&[0usize, 1, 67, 68, 69, 5000]));
+            let value = { let n_ = *rng.pick(&[0usize, 1, 67, 68, 69, 5000]); rng.bytes(n_) };
             mat::V2Entry { channel: warp_core::TypeId(h(rng)), value_hash: if rng.chance(3, 4) { mat::compute_value_hash(&value) } else { h(rng) }, value }
         })
         .collect();
@@ -611,8 +612,8 @@ fn dec_frames_v2(b: &[u8]) -> Dec {
     }
 }
 fn touch_frames_v2(b: &[u8]) -> Result<(), String> {
-    let r1 = mat::decode_v2_packet(b).map(|v| drop(v)).map_err(|e| label(&e));
-    let r2 = mat::decode_v2_packets(b).map(|v| drop(v)).map_err(|e| label(&e));
+    let r1 = mat::decode_v2_packet(b).map(|_| ()).map_err(|e| label(&e));
+    let r2 = mat::decode_v2_packets(b).map(|_| ()).map_err(|e| label(&e));
     r1.and(r2)
 }
 
@@ -629,6 +630,7 @@ pub fn codecs() -> Vec<Codec> {
             chunks: &[32, 8, 209],
             needs_kernel: false,
             in_c12: true,
+            in_c13: true,
         },
         Codec {
             name: "provenance.local_commit_v1",
@@ -641,6 +643,7 @@ pub fn codecs() -> Vec<Codec> {
             chunks: &[32, 8, 72, 4],
             needs_kernel: false,
             in_c12: true,
+            in_c13: true,
         },
         Codec {
             name: "wal.runtime_state_delta",
@@ -653,6 +656,7 @@ pub fn codecs() -> Vec<Codec> {
             chunks: &[32, 8, 4],
             needs_kernel: false,
             in_c12: true,
+            in_c13: true,
         },
     ];
     v.extend(wal_codecs());
@@ -667,6 +671,7 @@ pub fn codecs() -> Vec<Codec> {
         chunks: &[4, 12, 32],
         needs_kernel: false,
         in_c12: true,
+            in_c13: true,
     });
     v.push(Codec {
         name: "frames.v2",
@@ -679,6 +684,7 @@ pub fn codecs() -> Vec<Codec> {
         chunks: &[4, 12, 32, 68],
         needs_kernel: false,
         in_c12: true,
+            in_c13: true,
     });
     v
 }
